@@ -87,6 +87,7 @@ type StrV struct {
 	Nil   bool
 	Boxed Val
 	BoxT  types.Type
+	BoxK  string // encoding family: "" (codec), "abi"
 }
 
 func strLit(s string) *StrV {
